@@ -1,3 +1,129 @@
 import Nv.OracleIO
-/-! oracle_c04 — stub (model not built yet): answers `bad-op` to every line. -/
-def main : IO Unit := Nv.oracleMain (fun (_ : Unit) _ => ((), "bad-op")) ()
+import Nv.Model.C04
+import Nv.Gen.C04
+/-!
+oracle_c04 — line protocol (keys and values are naturals, sizes/capacities integers):
+  `new <lru|tiny> <cap>`                         → `ok`        single cache
+  `wnew <lru|tiny> <cap> <n> <U> mod`            → `ok`        wide cache, n shards, key k routed to k % n
+  `wnew <lru|tiny> <cap> <n> <U> tab <i0,i1,…>`  → `ok`        wide cache, key k routed to the k-th table entry
+  `set k v sz` `sia k v sz` `sgr k v sz` `get k` `peek k` `exist k` `del k` `clear` `cap c` `keys` `items` `stats`
+      single: `<result> | K=[k,…] I=[k:v:s,…] S=<len>,<size>,<cap>,<evictions>`
+      wide (keyed ops only): `<result> | P=[k:v,…]`   (Peek of every key 0…U-1)
+  `reset`                                        → `ok`        no cache (every op answers `bad-op`)
+  `conc <seed> <threads> <ops>`                  → `inv-ok`    (concurrent callers: invariants only)
+The configurations and the per-shard capacity kernel are the regenerated ones (`Nv.Gen.C04`).
+-/
+open Nv Nv.C04
+
+inductive Route
+  | mod (n : Nat)
+  | tab (t : List Nat)
+
+def Route.idx : Route → Nat → Nat
+  | .mod n, k => k % n
+  | .tab t, k => t.getD k t.length.succ.succ   -- outside the table: an index no shard has
+
+inductive St
+  | none
+  | single (kd : Kind) (s : Lru)
+  | wide (kd : Kind) (u : Nat) (r : Route) (w : Wide)
+
+def cfgOf : Kind → Cfg
+  | .sized => Nv.Gen.C04.cfgSized
+  | .tiny => Nv.Gen.C04.cfgTiny
+
+def parseKind (s : String) : Option Kind :=
+  if s == "lru" then some .sized else if s == "tiny" then some .tiny else none
+
+def showEntry (e : Entry) : String := s!"{e.key}:{e.val}:{e.size}"
+
+def snapshot (s : Lru) : String :=
+  s!"K={showList toString (s.list.map (·.key))} I={showList showEntry s.list} S={s.list.length},{s.size},{s.capacity},{s.evictions}"
+
+def showOut : Out → String
+  | .unit => "ok"
+  | .val (some v) => s!"v={v}"
+  | .val none => "miss"
+  | .bool b => if b then "true" else "false"
+  | .removed vs => s!"rm={showList toString vs}"
+  | .keys ks => s!"K={showList toString ks}"
+  | .items kvs => s!"I={showList (fun (p : Nat × Nat) => s!"{p.1}:{p.2}") kvs}"
+  | .stats l s c e => s!"S={l},{s},{c},{e}"
+  | .panic => "panic"
+
+def parseOp (ws : List String) : Option Op :=
+  match ws with
+  | ["set", k, v, sz] => do some (.set (← parseNat? k) (← parseNat? v) (← parseInt? sz))
+  | ["sia", k, v, sz] => do some (.setIfAbsent (← parseNat? k) (← parseNat? v) (← parseInt? sz))
+  | ["sgr", k, v, sz] => do some (.setGetRemoved (← parseNat? k) (← parseNat? v) (← parseInt? sz))
+  | ["get", k] => do some (.get (← parseNat? k))
+  | ["peek", k] => do some (.peek (← parseNat? k))
+  | ["exist", k] => do some (.exist (← parseNat? k))
+  | ["del", k] => do some (.delete (← parseNat? k))
+  | ["clear"] => some .clear
+  | ["cap", c] => do some (.setCapacity (← parseInt? c))
+  | ["keys"] => some .keys
+  | ["items"] => some .items
+  | ["stats"] => some .stats
+  | _ => none
+
+/-- per-shard capacity through the regenerated kernel (64-bit machine arithmetic) -/
+def genShardCap (kd : Kind) (cap : Int) (n : Nat) : Int :=
+  match kd with
+  | .sized => (Nv.Gen.C04.pSize (BitVec.ofInt 64 cap) (BitVec.ofNat 64 n)).toInt
+  | .tiny => (Nv.Gen.C04.pSizeTiny (BitVec.ofInt 64 cap) (BitVec.ofNat 64 n)).toInt
+
+def widePeekDump (u : Nat) (r : Route) (w : Wide) : String :=
+  let cells := (List.range u).filterMap fun k =>
+    match w.shards[r.idx k]? with
+    | some s => (find? k s.list).map fun e => s!"{k}:{e.val}"
+    | none => some s!"{k}:panic"
+  showList id cells
+
+def inInt64 (i : Int) : Bool := decide (-(2:Int)^63 ≤ i) && decide (i < (2:Int)^63)
+
+def step (st : St) (line : String) : St × String :=
+  match words line with
+  | ["reset"] => (.none, "ok")
+  | ["new", kd, cap] =>
+    match parseKind kd, parseInt? cap with
+    | some kd, some cap => if inInt64 cap then (.single kd (Lru.new cap), "ok") else (st, "bad-op")
+    | _, _ => (st, "bad-op")
+  | "wnew" :: kd :: cap :: n :: u :: rest =>
+    match parseKind kd, parseInt? cap, parseNat? n, parseNat? u with
+    | some kd, some cap, some n, some u =>
+      if n = 0 ∨ ¬ inInt64 cap ∨ n > 4096 ∨ u > 64 then (st, "bad-op") else
+      let route : Option Route := match rest with
+        | ["mod"] => some (.mod n)
+        | ["tab", t] =>
+          match (t.splitOn ",").mapM parseNat? with
+          | some tab => if tab.length = u ∧ tab.all (· < n) then some (.tab tab) else none
+          | none => none
+        | _ => none
+      match route with
+      | some r => (.wide kd u r ⟨List.replicate n (Lru.new (genShardCap kd cap n))⟩, "ok")
+      | none => (st, "bad-op")
+    | _, _, _, _ => (st, "bad-op")
+  | ["conc", a, b, c] =>
+    match st, parseNat? a, parseNat? b, parseNat? c with
+    | .single _ _, some _, some _, some _ => (st, "inv-ok")
+    | _, _, _, _ => (st, "bad-op")
+  | ws =>
+    match parseOp ws with
+    | none => (st, "bad-op")
+    | some op =>
+      match st with
+      | .none => (st, "bad-op")
+      | .single kd s =>
+        let r := Nv.C04.step (cfgOf kd) kd s op
+        (.single kd r.1, s!"{showOut r.2} | {snapshot r.1}")
+      | .wide kd u rt w =>
+        match op with
+        | .set .. | .get .. | .peek .. | .exist .. | .delete .. =>
+          if (op.key?.getD 0) ≥ u then (st, "bad-op") else
+          match wideStep (cfgOf kd) kd rt.idx w op with
+          | some (w', out) => (.wide kd u rt w', s!"{showOut out} | P={widePeekDump u rt w'}")
+          | none => (st, "panic")
+        | _ => (st, "bad-op")
+
+def main : IO Unit := oracleMain step St.none
